@@ -347,6 +347,7 @@ def main(prop, modname, level="other", argv=None, extra_assumptions=(), trusted_
         per_job=per_job, samples=total.samples or [{"note": "no sample"}],
         paths_validated_concretely=validated,
         known_findings_rederived=sorted(known_hit.keys()),
+        automat_rows_exercised=_row_coverage(total.cover),
         inconclusive=inconclusive + nonrepro,
         exhaustive=not inconclusive,
     )
@@ -363,6 +364,25 @@ def main(prop, modname, level="other", argv=None, extra_assumptions=(), trusted_
         return 2
     print("PASS property=%s" % prop)
     return 0
+
+
+def _row_coverage(cover):
+    """for the mailbox-client explorations: rows of each Automat table exercised by this run vs. rows in the table"""
+    if not cover:
+        return None
+    out = {}
+    try:
+        from wormhole import _boss, _nameplate, _mailbox, _send, _order, _key, _receive, _lister, _allocator, _input, _code, _terminator
+        classes = dict(Boss=_boss.Boss, Nameplate=_nameplate.Nameplate, Mailbox=_mailbox.Mailbox, Send=_send.Send, Order=_order.Order, Key=_key.Key,
+                       SortedKey=_key._SortedKey, Receive=_receive.Receive, Lister=_lister.Lister, Allocator=_allocator.Allocator, Input=_input.Input,
+                       Code=_code.Code, Terminator=_terminator.Terminator)
+        for name, cls in classes.items():
+            rows = {(t[0].method.__name__, t[1].method.__name__) for t in cls.m._automaton._transitions}
+            seen = {(s, i) for (n, s, i) in cover if n == name}
+            out[name] = dict(rows=len(rows), exercised=len(rows & seen), not_exercised=sorted("%s x %s" % r for r in rows - seen)[:12])
+    except Exception as e:  # coverage is informational only
+        out["error"] = repr(e)
+    return out
 
 
 def _z3v():
